@@ -14,6 +14,9 @@
      E  ... an ACK confirms the address the REQUEST names                            REFUTED + partial
      F  no reply once the lease is released / declined / swept after expiry          full
      G  no reply for a lease that is expired on the userspace (Unix) clock           REFUTED + partial
+   The named propositions [yiaddr_agrees], [type_agrees], [request_confirmed], [expired_silent] (the clauses
+   that fail on the code as it is) and [tx_case] / [tx_facts] (what every transmitted reply looks like) are
+   defined in Proofs/XdpDhcpProofs.v next to the recorded witnesses [wit_k03*].
    Domain: frames shorter than 2^16 bytes (the program itself keeps the length in a __u16; an XDP
    buffer is at most a page), byte values below 256. *)
 From Coq Require Import NArith List.
